@@ -39,12 +39,15 @@ pub struct PcParams {
     pub wneed_full: bool,
     pub rneed_full: bool,
     pub hold: bool,
+    /// Every sample carries a tag with its serial number.
+    pub tagged: bool,
 }
 
 impl PcParams {
     pub fn to_json(&self) -> Value {
         json!({"scenario":"pc","cap":self.cap,"pages":self.pages,"wscript":self.wscript,
-            "rscript":self.rscript,"wneed_full":self.wneed_full,"rneed_full":self.rneed_full,"hold":self.hold})
+            "rscript":self.rscript,"wneed_full":self.wneed_full,"rneed_full":self.rneed_full,"hold":self.hold,
+            "tagged":self.tagged})
     }
     pub fn from_json(v: &Value) -> Self {
         let us = |k: &str| v[k].as_u64().unwrap() as usize;
@@ -59,6 +62,7 @@ impl PcParams {
             wneed_full: v["wneed_full"].as_bool().unwrap(),
             rneed_full: v["rneed_full"].as_bool().unwrap(),
             hold: v["hold"].as_bool().unwrap(),
+            tagged: v["tagged"].as_bool().unwrap_or(false),
         }
     }
 }
@@ -81,6 +85,7 @@ fn pc_typed<T: Elem>(p: &PcParams) {
     let wscript = p.wscript.clone();
     let rscript = p.rscript.clone();
     let (wfull, rfull, hold) = (p.wneed_full, p.rneed_full, p.hold);
+    let tagged = p.tagged;
     let reader_alive = Arc::new(AtomicBool::new(true));
     let writer_alive = Arc::new(AtomicBool::new(true));
     let (ra, wa) = (reader_alive.clone(), writer_alive.clone());
@@ -101,7 +106,16 @@ fn pc_typed<T: Elem>(p: &PcParams) {
                     if hold {
                         thread::yield_now();
                     }
-                    wb.produce(part, &[]);
+                    let tags: Vec<rustradio::stream::Tag> = if tagged {
+                        (0..part)
+                            .map(|i| {
+                                rustradio::stream::Tag::new(i, "s", rustradio::stream::TagValue::U64(next + i as u64))
+                            })
+                            .collect()
+                    } else {
+                        vec![]
+                    };
+                    wb.produce(part, &tags);
                     next += part as u64;
                     break;
                 }
@@ -132,7 +146,19 @@ fn pc_typed<T: Elem>(p: &PcParams) {
         for part in rscript {
             let mut spins = 0;
             loop {
-                let (rb, _tags) = r.read_buf().unwrap();
+                let (rb, tags) = r.read_buf().unwrap();
+                if tagged {
+                    let got: Vec<(usize, String)> =
+                        tags.iter().map(|t| (t.pos(), format!("{}={:?}", t.key(), t.val()))).collect();
+                    let want: Vec<(usize, String)> =
+                        (0..rb.len()).map(|i| (i, format!("s=U64({})", next + i as u64))).collect();
+                    if got != want {
+                        violate(
+                            "tags",
+                            format!("read window of {} samples starting at serial {next} shows tags {got:?}, want {want:?}", rb.len()),
+                        );
+                    }
+                }
                 if rb.len() > cap {
                     violate("window-too-long", format!("read window of {} > capacity {cap}", rb.len()));
                     return;
